@@ -96,12 +96,12 @@ func (a *Allocation) AddPermission(perms *Permission) {
 	existedPermission, ok := a.permissions[fingerprint]
 	a.permissionsLock.RUnlock()
 
-	if ok {
-		existedPermission.refresh(perms.timeout)
-
+	if ok && existedPermission.refresh(perms.timeout) {
 		return
 	}
 
+	// New - or the timer of the existing permission has just fired and it is on
+	// its way out: the new permission takes its place.
 	perms.allocation = a
 	a.permissionsLock.Lock()
 	select {
@@ -113,13 +113,14 @@ func (a *Allocation) AddPermission(perms *Permission) {
 		return
 	default:
 	}
+	_, replaced := a.permissions[fingerprint]
 	a.permissions[fingerprint] = perms
 	// Arm the timer before the permission becomes visible to anybody else: Close() and
 	// a concurrent refresh dereference it, also while OnPermissionCreated is still running.
 	perms.start(perms.timeout)
 	a.permissionsLock.Unlock()
 
-	if a.eventHandler.OnPermissionCreated != nil {
+	if !replaced && a.eventHandler.OnPermissionCreated != nil {
 		if u, ok := perms.Addr.(*net.UDPAddr); ok {
 			a.eventHandler.OnPermissionCreated(a.fiveTuple.SrcAddr, a.fiveTuple.DstAddr,
 				a.fiveTuple.Protocol.String(), a.userID, a.realm,
@@ -130,13 +131,24 @@ func (a *Allocation) AddPermission(perms *Permission) {
 
 // RemovePermission removes the net.Addr's fingerprint from the allocation's permissions.
 func (a *Allocation) RemovePermission(addr net.Addr) {
+	a.removePermission(addr, nil)
+}
+
+// expirePermission is the timer's removal: it only removes the permission that
+// expired, not one that has taken its place in the meantime.
+func (a *Allocation) expirePermission(p *Permission) {
+	a.removePermission(p.Addr, p)
+}
+
+func (a *Allocation) removePermission(addr net.Addr, only *Permission) {
 	a.permissionsLock.Lock()
 	defer a.permissionsLock.Unlock()
 
 	// The permission may already be gone when its timer and the teardown of the
 	// allocation race: report the deletion only once.
 	fingerprint := ipnet.FingerprintAddr(addr)
-	if _, ok := a.permissions[fingerprint]; !ok {
+	current, ok := a.permissions[fingerprint]
+	if !ok || (only != nil && current != only) {
 		return
 	}
 	delete(a.permissions, fingerprint)
@@ -180,28 +192,39 @@ func (a *Allocation) AddChannelBind(chanBind *ChannelBind, channelLifetime, perm
 		return ErrSameChannelDifferentPeer
 	}
 
-	// Add or refresh this channel.
-	if channelByNumber == nil {
-		a.channelBindingsLock.Lock()
-		defer a.channelBindingsLock.Unlock()
-
-		chanBind.allocation = a
-		a.channelBindings = append(a.channelBindings, chanBind)
-		chanBind.start(channelLifetime)
-
-		// Channel binds also refresh permissions.
-		a.AddPermission(NewPermission(chanBind.Peer, a.log, permissionLifetime))
-
-		if a.eventHandler.OnChannelCreated != nil {
-			a.eventHandler.OnChannelCreated(a.fiveTuple.SrcAddr, a.fiveTuple.DstAddr,
-				a.fiveTuple.Protocol.String(), a.userID, a.realm,
-				a.RelayAddr, chanBind.Peer, uint16(chanBind.Number))
-		}
-	} else {
-		channelByNumber.refresh(channelLifetime)
-
+	// Refresh this channel.
+	if channelByNumber != nil && channelByNumber.refresh(channelLifetime) {
 		// Channel binds also refresh permissions.
 		a.AddPermission(NewPermission(channelByNumber.Peer, a.log, permissionLifetime))
+
+		return nil
+	}
+
+	// Add this channel. If the timer of the existing binding has just fired, that
+	// binding is on its way out and the new one takes its place.
+	a.channelBindingsLock.Lock()
+	defer a.channelBindingsLock.Unlock()
+
+	chanBind.allocation = a
+	replaced := false
+	for i, cb := range a.channelBindings {
+		if channelByNumber != nil && cb == channelByNumber {
+			a.channelBindings[i] = chanBind
+			replaced = true
+		}
+	}
+	if !replaced {
+		a.channelBindings = append(a.channelBindings, chanBind)
+	}
+	chanBind.start(channelLifetime)
+
+	// Channel binds also refresh permissions.
+	a.AddPermission(NewPermission(chanBind.Peer, a.log, permissionLifetime))
+
+	if !replaced && a.eventHandler.OnChannelCreated != nil {
+		a.eventHandler.OnChannelCreated(a.fiveTuple.SrcAddr, a.fiveTuple.DstAddr,
+			a.fiveTuple.Protocol.String(), a.userID, a.realm,
+			a.RelayAddr, chanBind.Peer, uint16(chanBind.Number))
 	}
 
 	return nil
@@ -209,11 +232,21 @@ func (a *Allocation) AddChannelBind(chanBind *ChannelBind, channelLifetime, perm
 
 // RemoveChannelBind removes the ChannelBind from this allocation by id.
 func (a *Allocation) RemoveChannelBind(number proto.ChannelNumber) bool {
+	return a.removeChannelBind(number, nil)
+}
+
+// expireChannelBind is the timer's removal: it only removes the binding that
+// expired, not one that has taken its place in the meantime.
+func (a *Allocation) expireChannelBind(c *ChannelBind) {
+	a.removeChannelBind(c.Number, c)
+}
+
+func (a *Allocation) removeChannelBind(number proto.ChannelNumber, only *ChannelBind) bool {
 	a.channelBindingsLock.Lock()
 	defer a.channelBindingsLock.Unlock()
 
 	for i := len(a.channelBindings) - 1; i >= 0; i-- {
-		if a.channelBindings[i].Number == number {
+		if a.channelBindings[i].Number == number && (only == nil || a.channelBindings[i] == only) {
 			if a.eventHandler.OnChannelDeleted != nil {
 				a.eventHandler.OnChannelDeleted(a.fiveTuple.SrcAddr, a.fiveTuple.DstAddr,
 					a.fiveTuple.Protocol.String(), a.userID, a.realm,
